@@ -17,7 +17,8 @@
     Only statements here; every proof is [exact <lemma>]. *)
 From Coq Require Import Reals ZArith QArith List Lra Lia.
 From Coquelicot Require Import Coquelicot.
-From Dadi Require Import Base.Num Base.NumR Model.Equilibrium Model.Coalescent Proofs.EquilibriumProofs Proofs.CoalescentProofs.
+From Dadi Require Import Base.Num Base.NumR Model.Equilibrium Model.Coalescent Proofs.EquilibriumProofs Proofs.CoalescentProofs
+  Model.Tridiag Model.Scheme Model.NDSweep Proofs.IsolatedSweep Proofs.IsolatedStep Proofs.SnmStationary.
 Import ListNotations.
 Local Open Scope R_scope.
 
@@ -128,6 +129,32 @@ Proof. exact coal_const_is_theta_over_i_lemma. Qed.
 Print Assumptions C01_coal_const_is_theta_over_i.
 
 (** non-vacuity: a concrete grid and parameters satisfy the hypotheses; a concrete oracle value *)
+(** "left unchanged when integrated further under the same size" - neutral case, EXACT (no grid error): on every grid
+    running from 0 to 1 (>= 3 points, strictly increasing), for every size nu, breeding ratio beta, theta0, every positive
+    time step and either delj setting, the mutation influx followed by the implicit step returns the neutral equilibrium
+    density unchanged at every interior grid point (the interface fluxes of V phi = theta0 (1-x) are all theta0/2, and the
+    flux missing at x = 0 is exactly the injected amount) ... *)
+Theorem C01_neutral_equilibrium_is_discrete_fixed_point : forall g n nu theta0 beta dt h dj i,
+  unit_grid g n -> 0 < nu -> 0 < beta -> 0 < dt -> (1 <= i <= n - 2)%nat ->
+  nthF (implicit_1D g nu 0 h beta dt dj (add_at (phi_snm g nu theta0 beta) 1 (snm_amount g theta0 dt))) i
+  = nthF (phi_snm g nu theta0 beta) i.
+Proof. exact snm_fixed_point_of_implicit_1D. Qed.
+Print Assumptions C01_neutral_equilibrium_is_discrete_fixed_point.
+(** ... hence by the one-population step of the integrator model, by any sequence of steps, and by the whole
+    constant-parameter driver for any integration time (agree_off_corners in one dimension = all entries but the two end points) *)
+Theorem C01_neutral_equilibrium_unchanged_by_one_pop : forall g n nu theta0 beta h dj tf,
+  unit_grid g n -> 0 < nu -> 0 < beta -> 0 < tf -> forall fuel t T res,
+  integrate_const fuel [n] [g] [snm_pop nu beta h] theta0 tf dj t T (phi_snm g nu theta0 beta) = Some res ->
+  agree_off_corners [n] [g] res (phi_snm g nu theta0 beta).
+Proof. exact neutral_equilibrium_unchanged_by_one_pop. Qed.
+Theorem C01_neutral_equilibrium_unchanged_by_any_steps : forall g n nu theta0 beta h dj,
+  unit_grid g n -> 0 < nu -> 0 < beta -> forall dts X, (forall dt, In dt dts -> 0 < dt) ->
+  agree_off_corners [n] [g] X (phi_snm g nu theta0 beta) ->
+  agree_off_corners [n] [g] (steps [n] [g] [snm_pop nu beta h] theta0 dj dts X) (phi_snm g nu theta0 beta).
+Proof. exact neutral_equilibrium_unchanged_by_any_steps. Qed.
+Example C01_neutral_fixed_point_nonvacuous : unit_grid [0; 1/4; 1/2; 1] 4 /\ (1 <= 2 <= 4 - 2)%nat.
+Proof. exact neutral_fixed_point_nonvacuous. Qed.
+
 Example C01_nonvacuous :
   List.Forall (fun p => 0 < p) (phi_genic (0 :: (1/4) :: [1/2; 3/4] ++ [1]) 2 1 (-5) 1) /\
   coal_sfs 3 (ej_hist (fun _ _ _ => 0) [] 2) 5 2 = 3 * 2 / INR 2.
